@@ -320,7 +320,7 @@ def control_switches(fn, block):
         t = fn.term(b)
         if t[0] != "switch":
             continue
-        succ = fn.succs(b)
+        succ = [x for x in fn.succs(b) if fn.term(x)[0] != "unreachable" or fn.stmts(x)]   # the `otherwise` arm of an exhaustive match
         r = [x == block or block in fn.reach_from(x, avoid=hdr - {x}) for x in succ]
         if any(r) and not all(r) and (b == 0 or b in fn.reach_from(0)):
             out.append(b)
